@@ -284,6 +284,16 @@ def explain_rejection(fn):
     for k in reads:
         if k >= len(prem):
             why.append("set variables of position %d, the premise has %d atoms" % (k, len(prem)))
+    def walk_bind(stmts, bound):
+        bound = set(bound)
+        for st in stmts:
+            if st[0] == "iter":
+                if st[2] in bound:
+                    why.append("variable %s is bound again by an iteration (shadowing): its repeated occurrence is not enforced" % st[2])
+                walk_bind(st[4], bound | {st[2]})
+            elif st[0] == "guard":
+                walk_bind(st[2], bound)
+    walk_bind(fn["ram"], set())
     pushes = []
 
     def walk2(stmts):
